@@ -19,6 +19,7 @@ type macct struct {
 	st       map[uint64]uint64
 	suicided bool
 	created  bool  // created by a CREATE/CREATE2 frame that succeeded
+	object   bool  // an (empty) account object exists before finalisation: target of a counted CALL to a precompile
 	codeNode *node // deployed code is the report of this node
 }
 
@@ -249,6 +250,26 @@ func (r *replayer) child(c *node, self common.Address, static bool) string {
 	}
 	if known && st != 1 { // reported failure: by the property nothing of it may remain
 		r.used[c.id] = false
+		return ""
+	}
+	if c.pre > 0 { // precompiled contract: no program; a successful CALL moves the value and leaves an account object
+		why := preMustFail(c)
+		ok := why == ""
+		if known {
+			if !ok {
+				r.why[c.id] = why
+				r.viol = append(r.viol, fmt.Sprintf("call #%d to precompile %d reported success but must fail: %s", c.id, c.pre, why))
+			}
+			ok = true
+		}
+		if ok && c.kind == kCall {
+			r.m.move(self, precompileAddr(c.pre), c.value)
+			r.m.acct(precompileAddr(c.pre)).object = true
+		}
+		if !ok {
+			r.why[c.id] = why
+		}
+		r.used[c.id] = ok
 		return ""
 	}
 	snap := r.m.clone()
